@@ -14,6 +14,11 @@ func genEmail(rng *rand.Rand, thorough bool) {
 	} {
 		emit(s)
 	}
+	// every byte value at every position of longer members (block-wise implementations; long local parts, labels, domains)
+	for _, m := range []string{"abcdefgh.ijklmnop@qrstuvwx.yzabcdef.com", "a1b2c3d4e5f6g7h8@i9j0k1l2-m3n4o5p6.q7r8", "ops@eu-west-1.compute.internal.example.com",
+		"user.name+tag@aaaaaaaaaaaaaaaaaaaaaaaaaaaaaaaa.bb"} {
+		sweepPositions(m)
+	}
 	// bounded-exhaustive over a class alphabet
 	alphabet := []string{"a", "1", ".", "-", "_", "@", "+", "(", "é", "\xff"}
 	n := 6
